@@ -26,7 +26,7 @@ def exempt_cuts(data):
 
 def main(c):
     thorough = c.tier == 'thorough'
-    exe = vlib.build_driver('c18', 'asan')
+    exe = vlib.build_driver('c18', 'asan', extra_ldflags=['-Wl,--wrap=fclose'])
     exe1 = vlib.build_driver('c01', 'plain')
     base = vlib.scratch_dir('c18')
     try:
@@ -66,10 +66,10 @@ def main(c):
     c.extra['exhaustive_scope'] = 'every cut position 0..len-1 of the selected files x 3 open paths; every write-callback index of the sink history x 3 failure kinds (sampled for 2 of them) x buffering modes; every RLIMIT_FSIZE value (step 1 or 3); abort after every write_batch prefix'
     c.rule = ('truncation: carquet-written files (byte-array contents seeded with footer look-alikes such as 00 01 00 00 00 "PAR1") are cut at every byte; each prefix is opened through fread, mmap and open_buffer and must be '
               'rejected unless the strict reference reader accepts the prefix as a complete file. sink failure: the same table is written to a fopencookie stream whose write callback fails at call i (returning 0 or a short count) '
-              'under _IONBF/_IOLBF/_IOFBF, to a path under RLIMIT_FSIZE=N, and to /dev/full; either some writer call reports non-OK or the sink holds exactly the fault-free bytes. abort: path absent and descriptor count unchanged. '
+              'under _IONBF/_IOLBF/_IOFBF, to a path under RLIMIT_FSIZE=N, and to /dev/full; either some writer call reports non-OK or the sink holds exactly the fault-free bytes. abort: path absent and descriptor count unchanged, also while the sink is failing (RLIMIT_FSIZE in a child process, fclose reporting EIO through a link-time wrapper); a path-based writer whose final fclose reports EIO must not return OK from close. '
               'distinct = (file, cut) / (table, failure index, buffering, kind)')
     c.assumptions = ['a caller-owned stream is flushed by carquet_writer_close (it documents "flush and close"); what the caller\'s own fclose reports afterwards is outside the property']
-    for k in ('files_with_hostile_length_markers', 'prefixes_rejected', 'cuts_ending_in_magic', 'files_with_inner_PAR1', 'cookie_sink_failures_injected', 'cookie_failures_reported', 'fsize_limits_injected', 'fsize_failures_reported', 'dev_full_runs', 'aborts'):
+    for k in ('files_with_hostile_length_markers', 'prefixes_rejected', 'cuts_ending_in_magic', 'files_with_inner_PAR1', 'cookie_sink_failures_injected', 'cookie_failures_reported', 'fsize_limits_injected', 'fsize_failures_reported', 'dev_full_runs', 'aborts', 'aborts_under_file_size_limit', 'aborts_with_failing_fclose', 'fclose_failures_injected'):
         c.require(k)
 
 
